@@ -1773,27 +1773,46 @@ def rule_unblocking(fb, R):
                   'parser dies, the read thread blocks / spins forever in push() on the full input queue and Reader::close() never returns from join()')
     # U2: pop() shuts the queue down at end of data
     ps = _dedupe(fb.fns(QW + '::pop'))
+    def is_shut(fn, c):
+        return c.get('q') == QUEUE + '::shutdown' and c.get('recv') is not None and fn_field(fn, c['recv']) is not None
     for f in fb.fns(QW + '::pop'):
-        shut = {elem_of(f, c['id']) for c in _calls(f, q=QUEUE + '::shutdown') if c.get('recv') is not None and fn_field(f, c['recv'])}
-        # branches whose condition is at_end_of_data(...), possibly negated or held in a named single-assignment bool
-        conds = []
-        for b in f.blocks.values():
-            if 'cond' in b and len(b['succs']) == 2:
-                cn, pos = _resolve_bool(f, b['cond'])
-                if cn is not None and cn.get('k') == 'call' and cn.get('q') == NS + 'at_end_of_data':
-                    edge = b['succs'][0 if pos else 1]
-                    if edge is not None:
-                        conds.append(edge)
-        ok = bool(conds)
+        # pop() and the helpers of the same wrapper instantiation it calls, treated as inlined
+        group = [f]
+        seeng = {id(f)}
+        i = 0
+        while i < len(group) and len(group) < 8:
+            g = group[i]
+            i += 1
+            for c in g.all_nodes():
+                if c.get('k') == 'call' and c.get('u') and c.get('rcls') == QW and not c.get('virt'):
+                    for t in fb.by_usr.get(c['u'], []):
+                        if t.has_cfg and t.clsT == f.clsT and id(t) not in seeng and t.kind == 'method':
+                            seeng.add(id(t))
+                            group.append(t)
+        nconds = 0
+        ok = True
         w = None
-        for edge in conds:
-            w = must_pass(f, edge, shut)
-            ok = ok and w is None
-        waits = _calls(f, q=QUEUE + '::wait_and_pop')
-        sameq = all(f.root_var(c['recv']) == f.root_var(w2['recv']) for c in _calls(f, q=QUEUE + '::shutdown') for w2 in waits)
-        R.check(ok and bool(waits) and sameq, 'U2-pop-shuts-down-at-end-of-data', f.q, f.site,
+        wq, sq = set(), set()
+        for g in group:
+            shut = _must_elems(fb, g, is_shut)
+            # branches whose condition is at_end_of_data(...), possibly negated or held in a named single-assignment bool
+            for b in g.blocks.values():
+                if 'cond' in b and len(b['succs']) == 2:
+                    cn, pos = _resolve_bool(g, b['cond'])
+                    if cn is not None and cn.get('k') == 'call' and cn.get('q') == NS + 'at_end_of_data':
+                        edge = b['succs'][0 if pos else 1]
+                        if edge is not None:
+                            nconds += 1
+                            w1 = must_pass(g, edge, shut)
+                            if w1 is not None:
+                                ok = False
+                                w = w or w1
+            wq |= {fn_field(g, c['recv']) for c in _calls(g, q=QUEUE + '::wait_and_pop') if c.get('recv') is not None}
+            sq |= {fn_field(g, c['recv']) for c in _calls(g, q=QUEUE + '::shutdown') if c.get('recv') is not None}
+        sameq = len(wq) == 1 and None not in wq and sq <= wq
+        R.check(ok and nconds > 0 and sameq, 'U2-pop-shuts-down-at-end-of-data', f.q, f.site,
                 'queue_wrapper::pop must shut its queue down when it sees the end-of-data marker: parsers loop on input_done() '
-                '(= !in_use()) and would block forever in the next pop(): %s' % _dp(f, w))
+                '(= !in_use()) and would block forever in the next pop(): %s' % _dp(group[0], w))
     if not ps:
         R.broken('queue_wrapper::pop not found')
     # U3a: push never waits / inserts once the queue is shut down
